@@ -88,7 +88,7 @@ CLAIMED = {
         "text": "Bounded-exhaustive: every binary input with <=4x<=4 and 5x<=3 leaves (quick) / 5x<=4, 4x5, 3x6 (thorough), every leaf assignment; "
                 "reconcile_lca's mapping = model LCA mapping, valid, and cheapest among ALL transfer-free valid mappings (enumerated by the model) "
                 "for all 36 (dup, loss) in {0..5}^2, unique when loss > 0; implementation cost = model cost. Operation histories: one species "
-                "tree and one LowestCommonAncestor object (named / unnamed ancestors) shared by every object tree of the bound, the leaf-mapping "
+                "tree and one LowestCommonAncestor object (named / unnamed ancestors; built after an earlier structure has indexed the same node objects on the mirrored tree) shared by every object tree of the bound, the leaf-mapping "
                 "dict updated in place through every assignment, every ordered pair of assignments on small inputs; the caller's own cost dict edited after the input was built (a cost sweep); reconcile_thl at hgt = inf under ANY and ALL with losses at 1, 3 and 4 must return exactly the LCA reconciliation (<=4x<=4 leaves; with free full losses: the LCA cost); the exhaustive solver at hgt = inf returns only the LCA reconciliation (<=3x<=3); the LCA result handed on by name after label_internal on partially labelled trees.",
         "design_ref": "6 (C07)",
         "note": "Trusted: refmodel/dtl.py. The comparison with thl at hgt=inf is C10's.",
